@@ -106,6 +106,7 @@ class Repo:
         if not os.path.isdir(self.pkg):
             raise AnalysisError(f"package directory {self.pkg} not found")
         self.modules: dict[str, Module] = {}
+        self.reshaped = 0  # if/else polarity and comparison operand order put back into the recorded form (bsa/alpha.py)
         self.renamed: list = []  # (function, {current local name: name used by the rules}) - see bsa/alpha.py
         self.funcs: dict[str, Func] = {}
         self.classes: dict[str, Cls] = {}
@@ -135,6 +136,7 @@ class Repo:
                 from . import alpha
 
                 self.renamed.extend(alpha.normalise(tree, name))
+                self.reshaped += alpha.canonicalise_shapes(tree, name)
                 m = Module(name, path, src, tree, hashlib.sha256(raw).hexdigest())
                 self.modules[name] = m
                 self._index(m, tree, prefix="", cls=None, parent=None)
@@ -224,4 +226,5 @@ class Repo:
             "functions_indexed": len(self.funcs),
             "classes_indexed": len(self.classes),
             "locals_renamed_back": {k: m for k, m in self.renamed},
+            "shapes_put_back": self.reshaped,
         }
